@@ -9,7 +9,7 @@ From Coq Require Import QArith List Bool ZArith.
 From SF Require Import Base.QKernel Model.Validate Model.ValidateSpec
   Proofs.Validate_kernel Proofs.Validate_graph Proofs.Validate_proofs Proofs.Validate_translate
   Proofs.Validate_repr Proofs.Validate_sound
-  Base.GeomAST Base.Planar Base.Planar_C03 Proofs.Planar_slab_base Proofs.Validate_ogc Proofs.Validate_jordan Proofs.Validate_sound_all.
+  Base.GeomAST Base.Planar Base.Planar_C03 Proofs.Planar_slab_base Proofs.Validate_ogc Proofs.Validate_jordan Proofs.Validate_sound_all Proofs.Validate_total.
 Import ListNotations.
 Open Scope Q_scope.
 
@@ -365,4 +365,27 @@ Example ogc_local_complete_nonvacuous :
   let rings := [sq; [(2, 0); (3, 1); (2, 2); (1, 1); (2, 0)]; [(2, 2); (3, 3); (2, 4); (1, 3); (2, 2)]] in
   poly_def_but_connectivity rings = true /\ poly_def rings = false
   /\ poly_geom_validate nested_v1 rings = Some RInteriorConnected.
+Proof. vm_compute. auto. Qed.
+
+(* ---------------------------------------------------------------- totality and the Go panic site (F33) *)
+(* [validate] is a total Gallina function: every input has a verdict.  The places where the Go
+   code would panic are the explicit outcome RPanic of the model.  For the explicit panic of
+   validatePolyNotInsidePoly ("already established that boundaries only intersect at points") the
+   model proves the branch unreachable: when the first pass over the boundary lines of two members
+   finds no overlapping pair, neither direction of the second pass finds one - "the two lines
+   overlap" does not depend on the order of the arguments of intersectLine.  This is a fact of
+   EXACT arithmetic (intersect_line_spec).  In float64 it is false once the cross products
+   overflow (Inf - Inf = NaN counts as collinear): MULTIPOLYGON(((-1e308 -2,1 -2,0 -1,-1e308 -2)),
+   ((-2 3,-2 -1,0 -1,-2 3))) made Validate and every validating decoder panic (F33; repaired by
+   fixes/F33.patch: the overlap is reported as the multi-touch rule violation).  The
+   correspondence class huge_polys observes "error or nil, never a panic" on such inputs. *)
+Theorem slow_case_panic_unreachable : forall bi bj : list seg,
+  Forall nondeg bi -> Forall nondeg bj -> snd (boundary_inter bi bj) = false ->
+  poly_not_inside_poly bi bj <> Some RPanic /\ poly_not_inside_poly bj bi <> Some RPanic.
+Proof. exact slow_case_panic_unreachable_lemma. Qed.
+Print Assumptions slow_case_panic_unreachable.
+Example slow_case_nonvacuous :
+  let bi := poly_lines [[(0, 0); (4, 0); (4, 4); (0, 4); (0, 0)]] in
+  let bj := poly_lines [[(4, 4); (6, 4); (6, 6); (4, 4)]] in
+  boundary_inter bi bj = (true, false) /\ poly_not_inside_poly bi bj = None /\ poly_not_inside_poly bj bi = None.
 Proof. vm_compute. auto. Qed.
